@@ -108,7 +108,18 @@ def r1(R1, R3, cfg, F):
             acc = b.blocks[init[0][1]]['stmts'][init[0][2]]['place']['l'] if okf else None
             # and the loop continues
             okf = okf and nx[0].bb in b.reachable([orc[0].target])
-    R1.check(okf, cfg, b.path, 'errors-folded-with-ErrorKind::or', 'each failing extension must be folded into the accumulated error with ErrorKind::or(new, accumulated) (overwriting loses a more specific earlier error)', orc[0].loc() if orc else b.loc())
+    why_fold = 'each failing extension must be folded into the accumulated error with ErrorKind::or(new, accumulated) (overwriting loses a more specific earlier error)'
+    if okf:
+        # every way from a failed attempt back to the loop header folds the error ...
+        if nx[0].bb in b.reachable([err_t], removed_blocks=[orc[0].bb]):
+            okf = False
+            why_fold = 'a failed attempt can reach the next iteration without folding its error with ErrorKind::or'
+        # ... and a failed attempt never leaves the loop: the remaining extensions must still be tried
+        elif b.reachable([err_t], removed_blocks=[nx[0].bb]) & set(b.return_blocks()):
+            okf = False
+            why_fold = ('a failed attempt can leave the loop (break / return) before the remaining extensions were tried: a later extension that loads, '
+                        'or default_value, is then decided on an incomplete picture')
+    R1.check(okf, cfg, b.path, 'errors-folded-with-ErrorKind::or', why_fold if len(orc) == 1 else 'each failing extension must be folded into the accumulated error with ErrorKind::or', orc[0].loc() if orc else b.loc())
     # R3
     dv = [c for c in b.calls() if c.callee and c.callee.defp == 'asset::Asset::default_value']
     psw = b.primary_switch(nx[0].dest['l'])
